@@ -562,3 +562,41 @@ pub fn nested_slips(ev: Ev) -> Vec<String> {
     out
 }
 
+
+/// Integer operands beyond 2^53 that no double holds exactly, in exact divisions, remainders and products with a
+/// small second operand: quotients q = 2^k + j (k = 50..62, |j| <= 2) times b, and the dividend D = q*b. Integer
+/// arithmetic stays exact here while any detour through doubles is off by up to a few thousand.
+pub fn big_integers() -> Vec<String> {
+    let mut out = Vec::new();
+    for k in 50..=62u32 {
+        for j in -2i128..=2 {
+            let q: i128 = (1i128 << k) + j;
+            for b in [2i128, 3, 5, 7, 10, 11, 1000] {
+                let d = q * b;
+                if d > i64::MAX as i128 {
+                    continue;
+                }
+                out.push(format!("{}/{}", d, b));
+                out.push(format!("{}%{}", d, b));
+                out.push(format!("{}*{}", q, b));
+                out.push(format!("{}/{}*{}", d, b, b));
+                out.push(format!("-{}/{}", d, b));
+                out.push(format!("(-{})/{}", d, b));
+                out.push(format!("{}/(-{})", d, b));
+                out.push(format!("(-{})/(-{})", d, b));
+                out.push(format!("({}+1)/{}", d, b));
+                out.push(format!("({}-1)%{}", d, b));
+                out.push(format!("1+{}/{}", d, b));
+                out.push(format!("{}/{}-{}", d, b, q));
+                out.push(format!("abs(-{})", d));
+                out.push(format!("{}+{}", d, b));
+                out.push(format!("{}-{}", d, b));
+                out.push(format!("{}/{}", d, q));
+                out.push(format!("{}%{}", d, q));
+            }
+        }
+    }
+    out.sort();
+    out.dedup();
+    out
+}
